@@ -3,7 +3,7 @@
 //! Engine B, process-isolated (`sweep::procs`): a panic, an abort or non-termination of the code
 //! under test is itself the possible verdict.
 //!
-//! * **cell family**: every string of length ≤ L over a 9-symbol alphabet (ASCII, space, wide,
+//! * **cell family**: every string of length ≤ L over a 10-symbol alphabet (ASCII, space, wide,
 //!   combining, zero-width, wide space U+3000, NBSP, tab, emoji + skin-tone modifier) × widths 0..=8
 //!   × delimiters {"", "…", "...", "世"}, through every public `Cell::truncate` implementation
 //!   that takes text: `str`, `String`, `&str` (blanket `&T`), `Paint<&str>`, `Paint<String>`,
@@ -163,7 +163,8 @@ fn guarded<T>(stage: usize, f: impl FnOnce() -> T) -> Result<T, mcx::panics::Cau
 // ---------------------------------------------------------------------------------------------
 // Input spaces
 
-const ALPHABET: [&str; 9] = ["a", " ", "世", "\u{301}", "\u{200b}", "\u{3000}", "\u{a0}", "\t", "👍🏽"];
+/// `❤\u{fe0f}`: a narrow base made two columns wide only by a trailing variation selector.
+const ALPHABET: [&str; 10] = ["a", " ", "世", "\u{301}", "\u{200b}", "\u{3000}", "\u{a0}", "\t", "👍🏽", "❤\u{fe0f}"];
 const DELIMS: [&str; 4] = ["", "…", "...", "世"];
 const WIDTHS: u64 = 9; // 0..=8
 
@@ -657,7 +658,7 @@ fn main() {
     }
     let thorough = ctx.tier == mcx::Tier::Thorough;
     let len = if thorough { 6 } else { 5 };
-    let space = LineSpace { parts: if thorough { vec![(1, 4), (2, 2), (3, 1)] } else { vec![(1, 3), (2, 2), (3, 1)] } };
+    let space = LineSpace { parts: if thorough { vec![(1, 5), (2, 2), (3, 1)] } else { vec![(1, 3), (2, 2), (3, 1)] } };
 
     let mut st = Stats::default();
     let t0 = std::time::Instant::now();
@@ -674,7 +675,7 @@ fn main() {
         json!({"family": "line", "labels_escaped": space.at(space.size() - 1).iter().map(|l| esc(l)).collect::<Vec<_>>(), "width": 0, "delim": "世"}),
     ];
     let mut cov = st.coverage(
-        "cell item = (string of length <= L over the 9-symbol alphabet, width 0..=8, delimiter) run through 7 Cell::truncate implementations; \
+        "cell item = (string of length <= L over the 10-symbol alphabet, width 0..=8, delimiter) run through 7 Cell::truncate implementations; \
          line item = (1-3 labels over the same alphabet, width, delimiter) run through Line::truncate, <Line as Cell>::truncate and Filled<Line>::truncate. \
          Non-trivial = the input is wider than the requested width (something must be cut); distinct = distinct (input, width, delimiter)",
         samples,
@@ -694,7 +695,7 @@ fn main() {
         &[
             "display width is measured with the crate's own Cell::width / Line::width (the property's observation point)",
             "non-termination = more than 20000 heap allocations inside one truncate call (each iteration of Line::truncate's loop that cuts a label allocates; replay confirms with 20,000,000); wall-clock watchdog as backstop",
-            "the design's 'lines of 1-3 such labels' is bounded to label lengths (3|4, 2, 1) for (1, 2, 3) labels",
+            "the design's 'lines of 1-3 such labels' is bounded to label lengths (3 quick | 5 thorough, 2, 1) for (1, 2, 3) labels",
             "Table / TextArea rendering (which call Line::truncate / str::truncate internally) are not driven",
         ],
         violations,
